@@ -1,0 +1,22 @@
+//go:build verif
+
+package account
+
+import (
+	atypes "github.com/rigochain/rigo-go/ctrlers/types"
+	"github.com/rigochain/rigo-go/types/xerrors"
+)
+
+// VerifAllAccountsAt returns every account committed at `height` (read-only).
+func (ctrler *AcctCtrler) VerifAllAccountsAt(height int64) ([]*atypes.Account, xerrors.XError) {
+	immu, xerr := ctrler.acctLedger.ImmutableLedgerAt(height, 0)
+	if xerr != nil {
+		return nil, xerr
+	}
+	var ret []*atypes.Account
+	xerr = immu.IterateReadAllItems(func(a *atypes.Account) xerrors.XError {
+		ret = append(ret, a)
+		return nil
+	})
+	return ret, xerr
+}
